@@ -10,6 +10,9 @@ for mp in sorted(glob.glob("/verif/seeded/*/meta.json")):
     sid = m["id"]
     if only and sid not in only and m["property"] not in only:
         continue
+    if m.get("superseded"):
+        rows.append((sid, m["property"], "not run: " + m["superseded"]))
+        continue
     patch = os.path.join(os.path.dirname(mp), "patch.diff")
     checks = m.get("detected_by") or [m["property"]]
     p = subprocess.run(["/verif/tools/run_mutant.sh", patch] + checks[:1], stdout=subprocess.PIPE, stderr=subprocess.STDOUT, text=True)
